@@ -9,6 +9,7 @@ import (
 	"regexp"
 	"sort"
 	"strings"
+	"sync"
 	"testing"
 
 	"github.com/zitadel/saml/pkg/provider"
@@ -20,7 +21,7 @@ import (
 	"verif/harness/xt"
 )
 
-const c19Rule = "rapid: (static) issuer strings assembled from a URL grammar with hostile productions - scheme spellings (https, http, HTTPS, ftp, javascript, empty, missing), authority forms (reg-name, IPv4, IPv6 literal, port, port only, userinfo, empty, missing '//'), paths, query and fragment variants (absent, empty, '&', ';', 'a=b', encoded), control characters and blanks - x insecure on/off, through ValidateIssuer and NewProvider(StaticIssuer); an independent RFC 3986 (appendix B) splitter decides the must-reject set (empty; no scheme; scheme other than https, or http without the insecure flag; no or empty authority / empty host; non-empty query or fragment) and the must-accept set (canonical lower-case https://host[:port][/path], http only with the flag); everything else is executed and counted, not asserted. (derived) path configurations (empty, with / without leading slash, nested, trailing slash) x insecure x configured header lists (default Forwarded, custom names) x requests with a Host and header lines built from the RFC 7239 grammar (several lines, several elements, quoted hosts, parameter-name case, for/by/proto noise) or from a malformed-syntax generator, plus X-Forwarded-Host / X-Forwarded-Proto / request-path noise. Oracle: grammar-built headers - the issuer function returns exactly scheme(flag) + '://' + first host of the first configured header that carries one (else the request Host) + path with leading slash; malformed headers - the result starts with the scheme chosen by the flag, ends with the configured path, and its middle is the request Host or a host= value literally present in a configured header; the served metadata's entityID starts with the same string. Non-trivial: a must-reject string that net/url parses without error, or >= 2 forwarded elements / header lines. Distinct by production vector."
+const c19Rule = "rapid: (static) issuer strings assembled from a URL grammar with hostile productions - scheme spellings (https, http, HTTPS, ftp, javascript, empty, missing), authority forms (reg-name, IPv4, IPv6 literal, port, port only, userinfo, empty, missing '//'), paths, query and fragment variants (absent, empty, '&', ';', 'a=b', encoded), control characters and blanks - x insecure on/off, through ValidateIssuer and NewProvider(StaticIssuer); an independent RFC 3986 (appendix B) splitter decides the must-reject set (empty; no scheme; scheme other than https, or http without the insecure flag; no or empty authority / empty host; non-empty query or fragment) and the must-accept set (canonical lower-case https://host[:port][/path], http only with the flag); everything else is executed and counted, not asserted. (derived) path configurations (empty, with / without leading slash, nested, trailing slash) x insecure x configured header lists (default Forwarded, custom names) x requests with a Host and header lines built from the RFC 7239 grammar (several lines, several elements, quoted hosts, parameter-name case, for/by/proto noise) or from a malformed-syntax generator, plus X-Forwarded-Host / X-Forwarded-Proto / request-path noise, hosts of the maximum DNS length and longer, one factory value configuring two providers with opposite insecure settings, and 16 concurrent requests with different hosts through one issuer function. Oracle: grammar-built headers - the issuer function returns exactly scheme(flag) + '://' + first host of the first configured header that carries one (else the request Host) + path with leading slash; malformed headers - the result starts with the scheme chosen by the flag, ends with the configured path, and its middle is the request Host or a host= value literally present in a configured header; the served metadata's entityID starts with the same string. Non-trivial: a must-reject string that net/url parses without error, or >= 2 forwarded elements / header lines. Distinct by production vector."
 
 type C19Case struct {
 	Kind     string      `json:"kind"` // static | derived
@@ -34,6 +35,9 @@ type C19Case struct {
 	ReqPath  string      `json:"request_path,omitempty"`
 	Wellform bool        `json:"grammar_built,omitempty"`
 	Prod     []string    `json:"productions,omitempty"`
+	// Twice: the issuer factory value is used for a second provider with the opposite insecure setting before the first
+	// issuer function is used (one factory value configuring two providers is ordinary use of the API).
+	Twice bool `json:"factory_used_twice,omitempty"`
 }
 
 var reURI = regexp.MustCompile(`^(([^:/?#]+):)?(//([^/?#]*))?([^?#]*)(\?([^#]*))?(#(.*))?$`)
@@ -140,8 +144,11 @@ func genC19Static(t *rapid.T) C19Case {
 
 // ---- derived issuers ----
 
-var c19HostTokens = []string{"fwd.example", "a.example", "b.example", "edge-1.example", "10.0.0.1"}
-var c19HostQuoted = []string{"fwd.example:8443", "[2001:db8::2]:443", "c.example"}
+// c19LongName is a DNS name of the maximum length (253 octets: labels of 63, 63, 63 and 61).
+var c19LongName = strings.Repeat("a", 63) + "." + strings.Repeat("b", 63) + "." + strings.Repeat("c", 63) + "." + strings.Repeat("d", 53) + ".example"
+
+var c19HostTokens = []string{"fwd.example", "a.example", "b.example", "edge-1.example", "10.0.0.1", "xn--bcher-kva.example", "idp--staging.example", c19LongName, c19LongName + "."}
+var c19HostQuoted = []string{"fwd.example:8443", "[2001:db8::2]:443", "c.example", c19LongName + ":8443", "[fe80::1ff:fe23:4567:890a%25" + strings.Repeat("z", 240) + "]:443", strings.Repeat("long-label.", 80) + "example:65535"}
 
 func genForwardedElement(t *rapid.T, withHost bool) (string, string) {
 	var pairs []string
@@ -203,6 +210,7 @@ func genC19Derived(t *rapid.T) C19Case {
 	c.Host = rapid.SampledFrom([]string{"idp.example", "idp.example", "host-hdr.example:8080", "[::1]:8443", "UPPER.Example", "tenant.idp.example"}).Draw(t, "host")
 	c.ReqPath = rapid.SampledFrom([]string{"/metadata", "/evil/path/metadata", "/metadata?x=https://evil.example", "/"}).Draw(t, "reqpath")
 	c.Wellform = rapid.IntRange(0, 3).Draw(t, "malformed") != 0
+	c.Twice = rapid.IntRange(0, 3).Draw(t, "twice") == 0
 	// header lines: configured headers and noise headers
 	names := append([]string{}, c.Headers...)
 	names = append(names, "X-Forwarded-Host", "X-Forwarded-Proto", "Forwarded", "X-Zitadel-Forwarded")
@@ -299,6 +307,13 @@ func c19Run(c C19Case) (vs []*ev.Violation, class string) {
 		add("path-configuration-rejected", "path %q refused: %v", c.Path, err)
 		return
 	}
+	var fnOther provider.IssuerFromRequest
+	if c.Twice {
+		if fnOther, err = factory(!c.Insecure); err != nil {
+			add("path-configuration-rejected", "path %q refused on second use of the factory: %v", c.Path, err)
+			return
+		}
+	}
 	req := &http.Request{Method: "GET", Host: c.Host, Header: http.Header{}, URL: &url.URL{Path: strings.SplitN(c.ReqPath, "?", 2)[0]}, RequestURI: c.ReqPath}
 	for _, l := range c.Lines {
 		req.Header.Add(l[0], l[1])
@@ -311,6 +326,16 @@ func c19Run(c C19Case) (vs []*ev.Violation, class string) {
 			}
 		}()
 		got = fn(req)
+		if fnOther != nil {
+			other := fnOther(req)
+			otherScheme := "http://"
+			if c.Insecure {
+				otherScheme = "https://"
+			}
+			if !strings.HasPrefix(other, otherScheme) {
+				add("derived-scheme", "second provider of the same factory value (insecure=%v): issuer %q does not start with %q", !c.Insecure, other, otherScheme)
+			}
+		}
 	}()
 	if len(vs) > 0 {
 		return
@@ -387,6 +412,69 @@ func c19Run(c C19Case) (vs []*ev.Violation, class string) {
 		}
 	}
 	return
+}
+
+// TestC19Concurrent: one issuer function serves many requests at once; each result must be the one for its own request.
+func TestC19Concurrent(t *testing.T) {
+	col := ev.For("C19", "exploration", c19Rule)
+	runPlain(t, col, "TestC19", func(fail func(*ev.Violation, any)) {
+		n := 0
+		for _, mode := range []string{"host", "forwarded", "custom"} {
+			for _, path := range []string{"", "/saml", "tenants/a"} {
+				for _, insecure := range []bool{false, true} {
+					c := C19Case{Kind: "derived", Mode: mode, Path: path, Insecure: insecure}
+					if mode != "host" {
+						c.Headers = []string{"Forwarded"}
+					}
+					if mode == "custom" {
+						c.Headers = []string{"X-Zitadel-Forwarded"}
+					}
+					fn, err := c19IssuerFactory(c)(insecure)
+					if err != nil {
+						continue
+					}
+					scheme := map[bool]string{false: "https://", true: "http://"}[insecure]
+					p := path
+					if p != "" && !strings.HasPrefix(p, "/") {
+						p = "/" + p
+					}
+					var wg sync.WaitGroup
+					var mu sync.Mutex
+					var bad *ev.Violation
+					for g := 0; g < 16; g++ {
+						wg.Add(1)
+						go func(g int) {
+							defer wg.Done()
+							host := fmt.Sprintf("tenant-%d%s.idp.example", g, strings.Repeat("x", g*3))
+							req := &http.Request{Method: "GET", Host: "direct-" + host, Header: http.Header{}, URL: &url.URL{Path: "/metadata"}}
+							want := scheme + "direct-" + host + p
+							if mode != "host" {
+								req.Header.Set(c.Headers[0], "for=192.0.2.1;host="+host)
+								want = scheme + host + p
+							}
+							for i := 0; i < 3000; i++ {
+								if got := fn(req); got != want {
+									mu.Lock()
+									if bad == nil {
+										bad = ev.V("C19/derived-issuer-under-concurrency", "16 concurrent requests with different hosts: request for %q got issuer %q, expected %q", host, got, want)
+									}
+									mu.Unlock()
+									return
+								}
+							}
+						}(g)
+					}
+					wg.Wait()
+					n += 16 * 3000
+					if bad != nil {
+						fail(bad, c)
+					}
+				}
+			}
+		}
+		col.Count("concurrent-derivations", n)
+		col.AddDistinct(18, 18)
+	})
 }
 
 func TestC19(t *testing.T) {
